@@ -73,6 +73,9 @@ def getattr(I, st, v, name):
                 yield st, e.cls
                 return
             if name == "__dict__":
+                if "__dictdata__" in e.attrs:
+                    # the mapping payload of a dict subclass lives beside the instance attributes in the model, not in Python
+                    raise Unsupported("__dict__ of an instance of a dict subclass")
                 d = DictE()
                 d.owner = v
                 yield st, st.alloc(d)
@@ -117,6 +120,10 @@ def getattr(I, st, v, name):
             if "__list__" in e.attrs and name in _LIST_METHODS:
                 # instance of a class deriving from list: methods of list not overridden by the class
                 yield st, list_method(I, st, e.attrs["__list__"], name)
+                return
+            if "__dictdata__" in e.attrs and name in _DICT_METHODS:
+                # instance of a class deriving from dict: methods of dict not overridden by the class
+                yield st, dict_method(I, st, e.attrs["__dictdata__"], name)
                 return
             ga, _ = I.class_lookup(e.cls, "__getattr__")
             if ga is not None:
@@ -228,6 +235,50 @@ def getattr(I, st, v, name):
                 st.get(st.get(a[0]).attrs["__list__"]).items[:] = items
                 yield st, None
             yield st, bi("list.__init__", _list_init)
+            return
+        if v.name == "dict" and name in ("__init__", "__getitem__", "__setitem__", "__contains__", "__delitem__", "__len__", "__iter__"):
+            # dict.<special>(self, ...) called explicitly on an instance of a dict subclass (or a plain dict):
+            # the builtin behaviour on the dict payload, bypassing the subclass's override
+            def _payload(st, x):
+                if isinstance(x, Ref) and st.get(x).kind == "dict":
+                    return x
+                if isinstance(x, Ref) and st.get(x).kind == "obj" and "__dictdata__" in st.get(x).attrs:
+                    return st.get(x).attrs["__dictdata__"]
+                raise Unsupported("dict.%s on %r" % (name, x))
+
+            def _dict_special(I, st, a, k, name=name):
+                M = _m()
+                if not a:
+                    raise Unsupported("dict.%s without self" % name)
+                d = _payload(st, a[0])
+                if name == "__init__":
+                    for st1, src in call_builtin_class(I, st, BuiltinClass("dict", dict), list(a[1:]), dict(k)):
+                        if isinstance(src, Exc):
+                            yield st1, src
+                        else:
+                            it = dict(st1.get(src).items)
+                            st1.get(d).items.clear()
+                            st1.get(d).items.update(it)
+                            yield st1, None
+                    return
+                if k:
+                    raise Unsupported("dict.%s with keywords" % name)
+                if name == "__getitem__" and len(a) == 2:
+                    yield from M.getitem(I, st, d, a[1])
+                elif name == "__setitem__" and len(a) == 3:
+                    yield from M.setitem(I, st, d, a[1], a[2])
+                elif name == "__delitem__" and len(a) == 2:
+                    yield from M.delitem(I, st, d, a[1])
+                elif name == "__contains__" and len(a) == 2:
+                    yield from M.contains(I, st, d, a[1])
+                elif name == "__len__" and len(a) == 1:
+                    yield st, len(st.get(d).items)
+                elif name == "__iter__" and len(a) == 1:
+                    yield st, st.alloc(ListE(list(st.get(d).items)))
+                else:
+                    raise Unsupported("dict.%s with %d arguments" % (name, len(a)))
+
+            yield st, bi("dict." + name, _dict_special)
             return
         if v.name == "object" and name == "__setattr__":
             # object.__setattr__(obj, name, value): the default attribute store (bypasses a __setattr__ override);
@@ -457,6 +508,7 @@ def class_attr_for_instance(I, st, inst, cls, name):
     yield st, bind_member(I, st, m, inst, cls)
 
 
+_DICT_METHODS = ("get", "items", "keys", "values", "update", "pop", "setdefault", "clear")  # not copy: returns a plain dict in Python, kept out
 _LIST_METHODS = ("append", "extend", "insert", "pop", "remove", "index", "count", "clear", "reverse", "sort", "copy")
 
 
@@ -1711,6 +1763,8 @@ def make_builtins(I):
                 m, _ = I.class_lookup(e.cls, "__len__")
                 if m is None and "__list__" in e.attrs:
                     yield st, len(st.get(e.attrs["__list__"]).items)
+                elif m is None and "__dictdata__" in e.attrs:
+                    yield st, len(st.get(e.attrs["__dictdata__"]).items)
                 elif m is None:
                     yield st, exc("TypeError", "object has no len()")
                 else:
@@ -2279,6 +2333,8 @@ def isinstance_model(I, st, v, cls):
                 return I.is_subclass(e.cls, cls)
             if isinstance(cls, BuiltinClass) and cls.name == "list" and "__list__" in e.attrs:
                 return True
+            if isinstance(cls, BuiltinClass) and cls.name == "dict" and "__dictdata__" in e.attrs:
+                return True
             return isinstance(cls, BuiltinClass) and cls.name == "object"
         kind = {"list": ("list",), "deque": ("deque",), "dict": ("dict",), "set": ("set", "frozenset"), "nd": ("ndarray",),
                 "symlist": ("list",)}[e.kind]
@@ -2330,6 +2386,9 @@ def isinstance_model(I, st, v, cls):
         return n == "ndarray"
     if isinstance(v, (FuncVal, BoundMethod, Builtin, M.EnumMember, ClassVal, ModuleVal)):
         return False
+    if isinstance(v, BuiltinClass) and isinstance(cls, BuiltinClass):
+        # a builtin class object (str, int, ValueError ...) is an instance of type and object only
+        return n in ("type", "object")
     raise Unsupported("isinstance of %r" % (v,))
 
 
@@ -2568,7 +2627,11 @@ def make_ext_modules(I):
             for hook in ("__reduce_ex__", "__reduce__", "__getstate__", "__setstate__"):
                 if I.class_lookup(e.cls, hook)[0] is not None:
                     raise Unsupported("copy.copy of an object with %s" % hook)
-            yield st, st.alloc(ObjE(e.cls, dict(e.attrs)))
+            attrs = dict(e.attrs)
+            if "__dictdata__" in attrs:
+                # copy.copy of a dict subclass instance: a new mapping with the same entries (copyreg: dictitems)
+                attrs["__dictdata__"] = st.alloc(DictE(dict(st.get(attrs["__dictdata__"]).items)))
+            yield st, st.alloc(ObjE(e.cls, attrs))
             return
         yield st, v
 
@@ -2624,6 +2687,8 @@ def make_ext_modules(I):
                             raise Unsupported("deepcopy of object with %s" % hook)
                     gs, _ = I.class_lookup(e.cls, "__getstate__")
                     ss, _ = I.class_lookup(e.cls, "__setstate__")
+                    if "__dictdata__" in e.attrs and (gs is not None or ss is not None):
+                        raise Unsupported("deepcopy of a dict subclass instance with __getstate__/__setstate__")
                     if "__tuple__" in e.attrs:
                         # instance of a class deriving from tuple: copyreg rebuilds it as cls.__new__(cls, <deep copy of the
                         # items>) - the items are copied BEFORE the new object exists and is recorded in the memo
